@@ -87,7 +87,7 @@ func (x *pipe) exec(data []byte) (res result) {
 	}
 	select {
 	case res.out = <-x.outCh:
-	case <-time.After(20 * time.Second):
+	case <-time.After(180 * time.Second):
 		// synchronisation only: an accepted event must reach the output of an action-less pipeline
 		panic(fmt.Sprintf("harness: event accepted by Pipeline.In never reached the output: %q", data))
 	}
